@@ -139,6 +139,11 @@ def run(tier):
     cont = absint.Interp(mod, inline_extra=re.compile(r"^(?:\S+ )?boost::multi::(operator[=!<>]=?|lexicographical_compare)\(boost::multi::(const_)?subarray<|"
                                                       r"boost::multi::(const_)?subarray<.*::lexicographical_compare_|boost::multi::array_ref<.*>::operator"))
     full = absint.Interp(mod, inline_extra=re.compile(r"."), max_paths=20000)
+    # a comparison written as a loop over the elements (instead of the library's comparison primitive) is followed for up to three visits of each
+    # block per path; longer paths are not followed (recorded below). The relations are checked over the paths that are followed: fewer
+    # combinations, each of them a genuine one.
+    cont.truncate_loops = True
+    full.truncate_loops = True
     trees = {}
     for fn, level, D, cn, nm in fns:
         try:
@@ -146,6 +151,9 @@ def run(tier):
         except absint.Limit as e:
             rep.inconclusive("R07.tree:%s" % fn, "R07.tree", str(e))
     nrel = 0
+    unrolled = sorted(getattr(cont, "truncated", set()) | getattr(full, "truncated", set()))
+    if unrolled:
+        rep.extra["loops_unrolled_to_bound"] = unrolled[:10]
     for fn, level, D, cn, nm in fns:
         if nm != "eq" or fn not in trees:
             continue
